@@ -28,7 +28,8 @@ static struct {
     int ncl;
     lin_op H[LIN_MAX_OPS];
     int nh;
-    long pushed, popped, empty_pops, waits_got, waits_empty;
+    long pushed, popped, empty_pops, waits_got, waits_empty, removes_ok, removes_refused;
+    int multi_consumer;
     int ran[MAXTOK];
 } S;
 
@@ -224,12 +225,20 @@ static void do_op(client *c, int op, int arg)
             o->tok[o->ntok++] = t;
             ABT_unit u;
             ABT_OK(ABT_thread_get_unit(S.tok[t], &u));
-            ABT_OK(ABT_pool_remove(S.pool, u));
-            SIM_CHECK(S.owner[t] == -1, "pool:unit-popped-twice", "unit %d removed while held by client %d", t, S.owner[t]);
-            S.owner[t] = c->id;
-            S.push_done[t] = 0;
-            c->held[c->nheld++] = t;
-            S.popped++;
+            int rc = ABT_pool_remove(S.pool, u);
+            if (rc == ABT_SUCCESS) {
+                o->max = 1;
+                SIM_CHECK(S.owner[t] == -1, "pool:unit-popped-twice", "unit %d removed while held by client %d", t, S.owner[t]);
+                S.owner[t] = c->id;
+                S.push_done[t] = 0;
+                c->held[c->nheld++] = t;
+                S.popped++;
+                S.removes_ok++;
+            } else {
+                /* refused: legitimate only if another consumer may have taken the unit meanwhile */
+                SIM_CHECK(S.multi_consumer, "pool:remove-failed", "ABT_pool_remove of unit %d returned %d although the unit is in the pool and nobody else can take it out", t, rc);
+                S.removes_refused++;
+            }
             hend(o);
             break;
         }
@@ -304,7 +313,10 @@ static void run_pool(int wait_heavy)
         c->id = i;
         c->can_push = both || i < np;
         c->can_pop = both || i >= np;
-        c->can_remove = c->can_pop && (both + nc) == 1; /* the only consumer */
+        /* remove: by the only consumer for a unit that is certainly in the pool, or racing with
+         * the other consumers' pops (it is then refused when the unit is gone) */
+        c->can_remove = c->can_pop;
+        S.multi_consumer = (both + nc) > 1;
         c->nops = plan_range(1, maxops);
         sim_note("[%s%s", c->can_push ? "P" : "", c->can_pop ? "C" : "");
         for (int j = 0; j < c->nops; j++) {
@@ -375,6 +387,8 @@ static void run_pool(int wait_heavy)
     sim_count("pool.empty_pops", (uint64_t)S.empty_pops);
     sim_count("pool.blocking_pop_got_unit", (uint64_t)S.waits_got);
     sim_count("pool.blocking_pop_empty", (uint64_t)S.waits_empty);
+    sim_count("pool.removes_ok", (uint64_t)S.removes_ok);
+    sim_count("pool.removes_refused_unit_gone", (uint64_t)S.removes_refused);
     /* drain, then let every token run so that it can be freed */
     for (;;) {
         ABT_thread th = ABT_THREAD_NULL;
